@@ -698,6 +698,18 @@ proof fn witness_layout_independent()
 }
 //@@ props C13,C20,C06
 
+/// witnesses for the `requires` of the functions under contract (representation invariants, to_u32, from_slice)
+proof fn witness_requires()
+{
+    let sc = Sectors { data: vstd::pervasive::arbitrary(), size: 512 };
+    assert(sc.wf());
+    let ms = Sectors { data: vstd::pervasive::arbitrary(), size: 64 };
+    let c = Cfb { directories: vstd::pervasive::arbitrary(), sectors: sc, fats: vstd::pervasive::arbitrary(), mini_sectors: ms, mini_fats: vstd::pervasive::arbitrary() };
+    assert(c.wf());
+    assert(Seq::<u8>::empty().len() % 4 == 0);                       // to_u32
+    assert(Seq::new(128, |i: int| 0u8).len() >= 128);                // Directory::from_slice
+}
+
 /// a well-formed DIFAT walk does not depend on the fuel
 proof fn lemma_walk_fuel(data: Seq<u8>, size: int, next: u32, f1: nat, f2: nat)
     requires difat_walk(data, size, next, f1) is Some, difat_walk(data, size, next, f2) is Some,
@@ -916,10 +928,8 @@ fn verif_chunks_map_collect<T, F: FnMut(&[u8]) -> T>(s: &[u8], n: usize, f: F) -
 //@@ body
         broadcast use axiom_iter_rem, lemma_iter_rev;
         proof { self.lemma_dirs(); }
-//@@ replace /\|d\| / closure parameter and result annotated so that its (verified) postcondition is visible to `any`; body unchanged
-|d: &Directory| -> (b: bool) ensures b == (d.name@ == name@) { 
-//@@ after /\|d\| [^)]*/
- }
+//@@ closure 0
+-> (b: bool) ensures b == (d.name@ == name@)
 //@@ end
 //@@ fn src/cfb.rs Cfb::get_stream props=C13 entry ret=res
 //@@ sig
@@ -961,10 +971,8 @@ fn verif_chunks_map_collect<T, F: FnMut(&[u8]) -> T>(s: &[u8], n: usize, f: F) -
         broadcast use axiom_iter_rem, lemma_iter_rev;
         proof { self.lemma_dirs(); }
         let ghost ds = self.dirs();
-//@@ replace /\|d\| / closure parameter and result annotated so that its (verified) postcondition is visible to `find`; body unchanged
-|d: &&Directory| -> (b: bool) ensures b == (d.name@ == name@) { 
-//@@ after /\|d\| [^)]*/
- }
+//@@ closure 0
+-> (b: bool) ensures b == (d.name@ == name@)
 //@@ after /Some\(d\) => \{/
                 let ghost k = choose|k: int| 0 <= k < self.directories@.len() && self.directories@[k] == *d
                     && forall|j: int| #![auto] 0 <= j < k ==> self.directories@[j].name@ != name@;
